@@ -372,6 +372,8 @@ def gen_build(rng, sc, lr_fail_bias=False):
         opts["consume_input"] = False
     if rng.random() < 0.08:
         opts["debug_colors"] = True  # sets the module-global termui.colors
+    if kind == "lr" and rng.random() < 0.1:
+        opts["return_position"] = True
     b = {"kind": kind, "opts": opts}
     b["recovery"] = rng.choice(["off", "off", "default", "default", "skip", "inject", "mixed",
                                 "pureskip"])
